@@ -17,6 +17,21 @@ R22f  every violation handed to a ``LintedFile`` has had the ``ignore`` and
       flagged by a loop calling ``ignore_if_in`` and ``warning_if_in`` on every
       element, unconditionally, after the list's last extension.
 (R22c — user errors through the runners' funnels — lives with C24's R24d.)
+
+Accepted spellings (decided on dominance / origins, never on local names):
+* a test hoisted into a boolean local stands for its expression (``_expand_atoms``);
+  ``sys.exit(...)`` ends its branch, so ``if a: ...; sys.exit(x)`` establishes ``not a`` for
+  the code that follows (``_conditions`` – the shared CFG gives the call a fall-through edge).
+* R22d: the 'exit code' entry may be a conditional expression, an if/else statement or a
+  default that is overridden; judged by which parameter can be the *final* value when the
+  ``["violations"]`` statistic is positive / zero; ``> 0``, ``!= 0``, ``>= 1`` and truthiness
+  are the same test of a count.  The per-dir 'violations' entry may sit in a dict display or
+  a ``dict(...)`` call, the counter read directly or through a local.
+* R22e: constants as plain or annotated assignments; the handler's test as
+  ``is``/``==`` known true or ``is not``/``!=`` known false; the handler object built in
+  the ``with`` item or held in a local bound only by that construction.
+* R22f: one loop applying both flagging methods or several whole-list loops that together
+  apply both (each validated on its own); the list handed on under a plain alias.
 """
 
 from __future__ import annotations
@@ -24,8 +39,8 @@ from __future__ import annotations
 import ast
 from typing import List, Optional, Set, Tuple
 
-from ..cfg import cfg_of, origins
-from ..counts import Counts, FIL, UNF, CountInfo
+from ..cfg import Branch, Synthetic, atoms, cfg_of, origins
+from ..counts import Counts, FIL, UNF, CountInfo, zero_test
 from ..index import AnalysisError, FuncNode, call_name, calls_in, enclosing_class, kwarg, last_attr, norm, short, walk_local
 
 CLI = "src/sqlfluff/cli/commands.py"
@@ -36,6 +51,113 @@ LRES = "src/sqlfluff/core/linter/linting_result.py"
 
 def _names(e) -> Set[str]:
     return {n.id for n in ast.walk(e) if isinstance(n, ast.Name)}
+
+
+def _expand_atoms(cfg, e: ast.expr, pol: bool, at, depth: int = 0) -> List[Tuple[ast.expr, bool]]:
+    """Atomic facts of ``e`` having truth ``pol`` at ``at``, seeing through a test hoisted into a
+    boolean local (``flag = not nofail; if flag:``): a plain name bound by exactly one
+    expression whose own names still have the same bindings at ``at`` stands for that
+    expression.  ``and``/``or``/``not`` are split as in ``cfg.conditions``."""
+    out: List[Tuple[ast.expr, bool]] = []
+    for a, p_ in atoms(e, pol):
+        if isinstance(a, ast.Name) and depth < 5 and at is not None:
+            os_ = origins(cfg, a, at)
+            if len(os_) == 1 and os_[0].kind == "expr" and not os_[0].path and os_[0].stmt is not None and not isinstance(os_[0].expr, ast.Constant):
+                o = os_[0]
+                rd = cfg.reaching()
+                if all(rd.defs_at(o.stmt, nm) == rd.defs_at(at, nm) for nm in _names(o.expr)):
+                    out += _expand_atoms(cfg, o.expr, p_, o.stmt, depth + 1)
+                    continue
+        out.append((a, p_))
+    return out
+
+
+def _is_exit_stmt(n) -> bool:
+    return isinstance(n, ast.Expr) and isinstance(n.value, ast.Call) and call_name(n.value) == "sys.exit"
+
+
+def _exc_edge_target(cfg, m) -> bool:
+    return m is cfg.raise_exit or (isinstance(m, Branch) and isinstance(m.stmt, ast.ExceptHandler)) or (
+        isinstance(m, Synthetic) and not isinstance(m, Branch) and str(getattr(m, "label", "")).startswith("finally")
+    )
+
+
+def _reach_noreturn(cfg, goal, blocked) -> bool:
+    """Is there a path entry -> goal that does not pass ``blocked`` and never *continues past* a
+    ``sys.exit(...)`` statement (the shared CFG gives such a statement a fall-through edge;
+    it has none: only its exception edges are real)."""
+    seen, stack = {cfg.entry}, [cfg.entry]
+    while stack:
+        n = stack.pop()
+        if n is goal:
+            return True
+        succ = cfg.succ[n]
+        if _is_exit_stmt(n):
+            succ = [m for m in succ if _exc_edge_target(cfg, m)]
+        for m in succ:
+            if m in seen or m is blocked:
+                continue
+            seen.add(m)
+            stack.append(m)
+    return False
+
+
+def _conditions(cfg, stmt) -> List[Tuple[ast.expr, bool]]:
+    """``cfg.conditions(stmt)`` plus the tests established by an earlier branch that ends in
+    ``sys.exit(...)`` (``if a: ...; sys.exit(x)`` followed by code: ``not a`` holds there),
+    every atom expanded through boolean locals."""
+    raw: List[Tuple[ast.expr, bool, object]] = []
+    have = set()
+    for g in cfg.guards(stmt):
+        if isinstance(g.stmt, (ast.If, ast.While)):
+            have.add(id(g))
+            raw.append((g.stmt.test, g.polarity, g.stmt))
+    if _reach_noreturn(cfg, stmt, None):
+        for n in cfg.nodes:
+            if isinstance(n, Branch) and isinstance(n.stmt, (ast.If, ast.While)) and id(n) not in have and cfg.reachable(n):
+                if not _reach_noreturn(cfg, stmt, n):
+                    raw.append((n.stmt.test, n.polarity, n.stmt))
+    out: List[Tuple[ast.expr, bool]] = []
+    for test, pol, at in raw:
+        out += _expand_atoms(cfg, test, pol, at)
+    return out
+
+
+def _is_handler_with(cfg, w) -> bool:
+    """``with PathAndUserErrorHandler(...):`` – the context manager built in place or held in a
+    local that is bound only by such a construction."""
+    if not isinstance(w, (ast.With, ast.AsyncWith)):
+        return False
+    for i in w.items:
+        e = i.context_expr
+        if isinstance(e, ast.Call) and last_attr(e) == "PathAndUserErrorHandler":
+            return True
+        if isinstance(e, ast.Name):
+            os_ = origins(cfg, e, w)
+            if os_ and all(o.kind == "expr" and not o.path and isinstance(o.expr, ast.Call) and last_attr(o.expr) == "PathAndUserErrorHandler" for o in os_):
+                return True
+    return False
+
+
+def _inside_handler(f, c) -> bool:
+    cfg = cfg_of(f)
+    p = c
+    while p is not None and p is not f:
+        if _is_handler_with(cfg, p):
+            return True
+        p = getattr(p, "_parent", None)
+    return False
+
+
+def _violations_sign(e: ast.expr, pol: bool) -> Optional[bool]:
+    """True: the fact says the ``["violations"]`` statistic is positive; False: it is zero;
+    None: the fact is not a test of that statistic.  ``> 0``, ``!= 0``, ``>= 1`` and plain
+    truthiness are the same test of a non-negative count (``== 0``, ``<= 0``, ``< 1`` its negation)."""
+    zt = zero_test(e)
+    q, asserts_zero = zt if zt else (e, False)
+    if not (isinstance(q, ast.Subscript) and isinstance(q.slice, ast.Constant) and q.slice.value == "violations"):
+        return None
+    return (not asserts_zero) if pol else asserts_zero
 
 
 def _influencing_exprs(f, sinks: List[Tuple[ast.expr, object]]) -> List[Tuple[ast.expr, object]]:
@@ -169,37 +291,118 @@ def run(chk) -> None:
     st = repo.fn(LRES, "LintingResult.stats")
     cfg = cfg_of(st)
     params = [a.arg for a in st.args.args]
-    found = False
-    for n in walk_local(st):
-        if isinstance(n, ast.Assign) and isinstance(n.targets[0], ast.Subscript) and isinstance(n.targets[0].slice, ast.Constant) and n.targets[0].slice.value == "exit code":
-            found = True
-            v = n.value
-            ok = (
-                isinstance(v, ast.IfExp)
-                and isinstance(v.body, ast.Name) and isinstance(v.orelse, ast.Name)
-                and params.index(v.body.id) < params.index(v.orelse.id) if isinstance(v, ast.IfExp) and isinstance(v.body, ast.Name) and isinstance(v.orelse, ast.Name) and v.body.id in params and v.orelse.id in params else False
-            )
-            test_ok = False
-            if isinstance(v, ast.IfExp) and isinstance(v.test, ast.Compare) and len(v.test.ops) == 1 and isinstance(v.test.ops[0], ast.Gt) \
-                    and isinstance(v.test.comparators[0], ast.Constant) and v.test.comparators[0].value == 0 \
-                    and isinstance(v.test.left, ast.Subscript) and isinstance(v.test.left.slice, ast.Constant) and v.test.left.slice.value == "violations":
-                test_ok = True
-            chk.require(ok and test_ok, "R22d", n, "'exit code' is not `fail_code if <violations statistic> > 0 else success_code`", detail="stats exit code expression")
-            chk.require(not cfg.conditions(n), "R22d", n, "'exit code' entry is only set conditionally", detail="stats exit code unconditional")
+    # every store to the 'exit code' entry, split into its leaves: (value, facts known there).
+    # ``X if T else Y`` contributes (X, T true) and (Y, T false) on top of the branch
+    # conditions of the statement, so the conditional expression, an if/else statement and
+    # a test hoisted into a boolean local are judged as the same thing.
+    stores = [
+        n for n in walk_local(st)
+        if isinstance(n, ast.Assign) and isinstance(n.targets[0], ast.Subscript) and isinstance(n.targets[0].slice, ast.Constant) and n.targets[0].slice.value == "exit code"
+    ]
+    found = bool(stores)
+    leaves = []  # (store statement, param index or None, sign known at the leaf or None)
+    for n in stores:
+        v, v_at = n.value, n
+        if isinstance(v, ast.Name) and v.id not in params:
+            os_ = cfg.reaching().defs_at(n, v.id)
+            if len(os_) == 1:
+                d = next(iter(os_))
+                if d.kind == "assign" and not d.path and isinstance(d.value, ast.IfExp):
+                    v, v_at = d.value, d.stmt
+        base = _conditions(cfg, n)
+        parts = [(v, [])]
+        if isinstance(v, ast.IfExp):
+            parts = [(v.body, _expand_atoms(cfg, v.test, True, v_at)), (v.orelse, _expand_atoms(cfg, v.test, False, v_at))]
+        for leaf, extra in parts:
+            signs = {sg for sg in (_violations_sign(e, pol) for e, pol in base + extra) if sg is not None}
+            if len(signs) == 2:
+                continue  # contradictory facts: this leaf is never evaluated
+            idx = params.index(leaf.id) if isinstance(leaf, ast.Name) and leaf.id in params else None
+            leaves.append((n, idx, next(iter(signs)) if signs else None))
+
+    def _branch_sign(x) -> Optional[bool]:
+        if isinstance(x, Branch) and isinstance(x.stmt, (ast.If, ast.While)):
+            sg_ = {z for z in (_violations_sign(e, pol) for e, pol in _expand_atoms(cfg, x.stmt.test, x.polarity, x.stmt)) if z is not None}
+            if len(sg_) == 1:
+                return next(iter(sg_))
+        return None
+
+    # which parameter can be the *final* value of the entry when the statistic is positive /
+    # zero: a store counts for a sign when it can be reached and the return can be reached
+    # from it without another store and without taking a branch that asserts the opposite
+    # sign (covers `X if T else Y`, if/else, and default-then-override)
+    final = {True: set(), False: set()}
+    for sg in (True, False):
+        contra = lambda x, sg=sg: _branch_sign(x) is (not sg)  # noqa: E731
+        for n, idx, own in leaves:
+            if own is not None and own != sg:
+                continue
+            others = [s_ for s_ in stores if s_ is not n]
+            if cfg.paths_avoiding(cfg.entry, n, contra) and cfg.paths_avoiding(n, cfg.exit, lambda x: contra(x) or any(x is o for o in others)):
+                final[sg].add(idx)
+    pos, zero = final[True], final[False]
+    expr_ok = (
+        bool(leaves) and len(pos) == 1 and len(zero) == 1 and None not in pos and None not in zero
+        and next(iter(pos)) < next(iter(zero))
+    )
+    if stores:
+        chk.require(expr_ok, "R22d", stores[0], "'exit code' is not `fail_code if <violations statistic> > 0 else success_code`", detail="stats exit code expression")
+        # set on every path to the return: no way from entry to exit around all the stores
+        always = not cfg.paths_avoiding(cfg.entry, cfg.exit, lambda x: any(x is s_ for s_ in stores))
+        chk.require(always, "R22d", stores[0], "'exit code' entry is only set conditionally", detail="stats exit code unconditional")
     chk.require(found, "R22d", st, "LintingResult.stats no longer sets an 'exit code' entry", detail="stats exit code present")
     # the violations statistic of LintedDir.stats is the filtered counter
     ds = repo.fn(LDIR, "LintedDir.stats")
+    ds_cfg = cfg_of(ds)
     vio_attr = None
     for n in walk_local(ds):
+        entries = []
         if isinstance(n, ast.Dict):
-            for k, v in zip(n.keys, n.values):
-                if isinstance(k, ast.Constant) and k.value == "violations" and isinstance(v, ast.Attribute):
-                    vio_attr = v.attr
+            entries = [(k.value, v) for k, v in zip(n.keys, n.values) if isinstance(k, ast.Constant)]
+        elif isinstance(n, ast.Call) and isinstance(n.func, ast.Name) and n.func.id == "dict" and not n.args:
+            entries = [(k.arg, k.value) for k in n.keywords if k.arg]
+        for k, v in entries:
+            if k != "violations":
+                continue
+            if isinstance(v, ast.Name):  # the counter read into a local first
+                os_ = origins(ds_cfg, v, ds_cfg.stmt_of(n))
+                if len(os_) == 1 and os_[0].kind == "expr" and not os_[0].path:
+                    v = os_[0].expr
+            if isinstance(v, ast.Attribute) and isinstance(v.value, ast.Name) and v.value.id == "self":
+                vio_attr = v.attr
     chk.require(vio_attr is not None, "R22d", ds, "LintedDir.stats has no 'violations' entry read from a counter", detail="dir stats violations entry")
     exit_attrs = {vio_attr} if vio_attr else set()
     # stats must sum LintedDir.stats over all paths
-    summed = any(isinstance(c, ast.Call) and last_attr(c) == "sum_dicts" and any(isinstance(a, ast.Call) and last_attr(a) == "stats" for a in c.args) for c in calls_in(st))
-    loop_all = any(isinstance(n, ast.For) and norm(n.iter) == "self.paths" for n in walk_local(st))
+    def _stats_comp(e) -> bool:
+        """``[p.stats() for p in self.paths]`` (no filter): the per-dir dicts of all paths"""
+        return (
+            isinstance(e, (ast.ListComp, ast.GeneratorExp)) and len(e.generators) == 1 and not e.generators[0].ifs
+            and norm(e.generators[0].iter) == "self.paths" and isinstance(e.elt, ast.Call) and last_attr(e.elt) == "stats"
+        )
+
+    def _is_dir_stats(a, at) -> bool:
+        if isinstance(a, ast.Call):
+            return last_attr(a) == "stats"
+        if isinstance(a, ast.Name):  # ``dir_stats = path.stats()`` handed on, or the variable of a loop over the dicts
+            os_ = origins(cfg, a, at)
+            return bool(os_) and all(
+                not o.path and (
+                    (o.kind == "expr" and isinstance(o.expr, ast.Call) and last_attr(o.expr) == "stats")
+                    or (o.kind == "for" and _stats_comp(o.expr))
+                ) for o in os_
+            )
+        return False
+
+    def _is_all_paths(it, at) -> bool:
+        if norm(it) == "self.paths" or _stats_comp(it):
+            return True
+        if isinstance(it, ast.Name):
+            os_ = origins(cfg, it, at)
+            return bool(os_) and all(o.kind == "expr" and not o.path and (norm(o.expr) == "self.paths" or _stats_comp(o.expr)) for o in os_)
+        return False
+
+    summed = any(last_attr(c) == "sum_dicts" and any(_is_dir_stats(a, cfg.stmt_of(c)) for a in c.args) for c in calls_in(st))
+    loop_all = any(isinstance(n, ast.For) and _is_all_paths(n.iter, n) for n in walk_local(st))
     chk.require(summed and loop_all, "R22d", st, "LintingResult.stats does not add up LintedDir.stats() over all paths", detail="stats sums all paths")
 
     # ---- R22b: counters --------------------------------------------------------
@@ -224,7 +427,7 @@ def run(chk) -> None:
                 stn = next((s for s in walk_local(fnode) if isinstance(s, ast.AugAssign) and norm(s) == stmt_txt), None)
                 guarded = False
                 if stn is not None:
-                    for e, pol in cfg.conditions(stn):
+                    for e, pol in _conditions(cfg, stn):
                         txt = norm(e)
                         if ("'warning'" in txt or '"warning"' in txt or ".warning" in txt) and not pol:
                             guarded = True
@@ -252,6 +455,8 @@ def run(chk) -> None:
     for n in init.tree.body:
         if isinstance(n, ast.Assign) and isinstance(n.targets[0], ast.Name) and isinstance(n.value, ast.Constant):
             consts[n.targets[0].id] = n.value.value
+        elif isinstance(n, ast.AnnAssign) and isinstance(n.target, ast.Name) and isinstance(n.value, ast.Constant):
+            consts[n.target.id] = n.value.value  # ``EXIT_ERROR: int = 2``
     for name, want in (("EXIT_SUCCESS", 0), ("EXIT_FAIL", 1), ("EXIT_ERROR", 2)):
         chk.require(consts.get(name) == want, "R22e", init.tree.body[0] if init.tree.body else None, f"{name} must be {want}, found {consts.get(name)!r}",
                     detail=f"{name} == {want}", construct=f"{CLI_INIT}::<module>")
@@ -260,8 +465,15 @@ def run(chk) -> None:
     ex = [c for c in calls_in(h) if call_name(c) == "sys.exit"]
     ok = False
     for c in ex:
-        conds = cfg.conditions(cfg.stmt_of(c))
-        if c.args and norm(c.args[0]) == "EXIT_ERROR" and any(pol and "SQLFluffUserError" in norm(e) for e, pol in conds):
+        conds = _conditions(cfg, cfg.stmt_of(c))
+
+        def _is_user_error(e, pol) -> bool:
+            # ``x is not E`` / ``x != E`` known false is ``x is E`` / ``x == E`` known true
+            if isinstance(e, ast.Compare) and len(e.ops) == 1 and isinstance(e.ops[0], (ast.IsNot, ast.NotEq)):
+                pol = not pol
+            return pol and "SQLFluffUserError" in norm(e)
+
+        if c.args and norm(c.args[0]) == "EXIT_ERROR" and any(_is_user_error(e, pol) for e, pol in conds):
             ok = True
     chk.require(ok, "R22e", h, "the CLI user-error handler does not exit with EXIT_ERROR for SQLFluffUserError", detail="handler exits EXIT_ERROR")
     for q in ("lint", "fix", "cli_format"):
@@ -270,12 +482,7 @@ def run(chk) -> None:
             raise AnalysisError(f"command function {q} not found in cli/commands.py")
         for c in calls_in(f):
             if last_attr(c) in ("lint_paths", "lint_string_wrapped", "_stdin_fix", "_paths_fix") :
-                p = c
-                inside = False
-                while p is not None and p is not f:
-                    if isinstance(p, ast.With) and any(isinstance(i.context_expr, ast.Call) and last_attr(i.context_expr) == "PathAndUserErrorHandler" for i in p.items):
-                        inside = True
-                    p = getattr(p, "_parent", None)
+                inside = _inside_handler(f, c)
                 chk.require(inside, "R22e", c, f"{q}: linter call outside PathAndUserErrorHandler (a user error would become a traceback, not exit 2)",
                             detail=f"{q}: {last_attr(c)} inside handler")
     # _paths_fix itself wraps lint_paths
@@ -283,18 +490,14 @@ def run(chk) -> None:
     if pf is not None:
         for c in calls_in(pf):
             if last_attr(c) == "lint_paths":
-                p, inside = c, False
-                while p is not None and p is not pf:
-                    if isinstance(p, ast.With) and any(isinstance(i.context_expr, ast.Call) and last_attr(i.context_expr) == "PathAndUserErrorHandler" for i in p.items):
-                        inside = True
-                    p = getattr(p, "_parent", None)
+                inside = _inside_handler(pf, c)
                 chk.require(inside, "R22e", c, "_paths_fix: lint_paths outside PathAndUserErrorHandler", detail="_paths_fix: lint_paths inside handler")
     # lint: the only unconditional-success exit is under nofail
     lint = local_funcs["lint"]
     cfg = cfg_of(lint)
     for c in calls_in(lint):
         if call_name(c) == "sys.exit" and c.args and norm(c.args[0]) == "EXIT_SUCCESS":
-            conds = cfg.conditions(cfg.stmt_of(c))
+            conds = _conditions(cfg, cfg.stmt_of(c))
             ok = any(isinstance(e, ast.Name) and any(o.kind == "param" and getattr(o.expr, "arg", "") == "nofail" for o in origins(cfg, e, cfg.stmt_of(c))) and pol for e, pol in conds)
             chk.require(ok, "R22e", c, "lint exits EXIT_SUCCESS unconditionally on a path not governed by --nofail", detail="lint: success exit only under nofail")
 
@@ -321,6 +524,14 @@ def _r22f(chk, repo) -> None:
                         inner = os_[0].expr.args[0]
                         if isinstance(inner, ast.Name):
                             varg, st_use = inner, os_[0].stmt
+                # a plain alias of the list (``all_violations = violations``) is the list itself
+                hops = 0
+                while isinstance(varg, ast.Name) and hops < 4:
+                    ds_ = cfg.reaching().defs_at(st, varg.id)
+                    d_ = next(iter(ds_)) if len(ds_) == 1 else None
+                    if d_ is None or d_.kind != "assign" or d_.path or not isinstance(d_.value, ast.Name):
+                        break
+                    varg, hops = d_.value, hops + 1
                 if not isinstance(varg, ast.Name):
                     chk.fail("R22f", c, "cannot trace the violations list handed to LintedFile", detail=f"{q}: violations list traceable")
                     continue
@@ -337,12 +548,15 @@ def _r22f(chk, repo) -> None:
                                 inner_conds = [e for e, pol in cfg.conditions(cfg.stmt_of(x)) if any(p is n2 for p in _parents(e))]
                                 if not inner_conds:
                                     called.add(last_attr(x))
-                        if {"ignore_if_in", "warning_if_in"} <= called:
-                            loops.append(n2)
+                        if {"ignore_if_in", "warning_if_in"} & called:
+                            loops.append((n2, called))
                     # helper idiom: f(V, ...) whose body is such a loop over its parameter
-                ok = False
+                # one loop applying both, or several whole-list loops that together apply both:
+                # each loop is validated on its own (dominates the construction, no extension of
+                # the list after it), then the methods applied by the valid loops are united
+                applied: Set[str] = set()
                 why = "no loop applies ignore_if_in and warning_if_in to every element of the list"
-                for lp in loops:
+                for lp, lp_called in loops:
                     if not cfg.dominates(lp, st):
                         why = "the flagging loop does not dominate the construction"
                         continue
@@ -367,7 +581,10 @@ def _r22f(chk, repo) -> None:
                     if [e for e, pol in cfg.conditions(lp) if True] != [e for e, pol in cfg.conditions(st) if True][: len(cfg.conditions(lp))] and len(cfg.conditions(lp)) > len(cfg.conditions(st)):
                         why = "the flagging loop only runs under a condition that does not govern the construction"
                         continue
-                    ok = True
+                    applied |= lp_called
+                ok = {"ignore_if_in", "warning_if_in"} <= applied
+                if not ok and applied:
+                    why = f"only {sorted(applied & {'ignore_if_in', 'warning_if_in'})} is applied to every element of the final list"
                 chk.require(ok, "R22f", c, f"violations reach a LintedFile without the ignore/warnings configuration applied to all of them: {why}; a violation configured as a "
                             "warning (or ignored) would then count towards the exit code", detail=f"{q}: all violations flagged before LintedFile")
     chk.count("R22f.lintedfile_constructions", n)
@@ -416,6 +633,224 @@ VARIANTS = [
         "    if num_filtered_errors:\n        return EXIT_FAIL\n    return EXIT_SUCCESS\n\n\ndef _stdin_fix(",
         "QUIET", None, "conditional expression spelled as if/return",
     ),
+    Variant(
+        'quiet-stdin-fix-exit-if-else', CLI,
+        '    sys.exit(EXIT_FAIL if templater_error or unfixable_error else exit_code)\n',
+        '    if templater_error:\n        sys.exit(EXIT_FAIL)\n    elif unfixable_error:\n        sys.exit(EXIT_FAIL)\n    sys.exit(exit_code)\n',
+        "QUIET", None, 'R22a: conditional exit argument spelled as if/elif + fall-through exit',
+    ),
+    Variant(
+        'quiet-stdin-fix-templater-count-local', CLI,
+        '    templater_error = result.num_violations(types=SQLTemplaterError) > 0\n',
+        '    num_templater_errors = result.num_violations(SQLTemplaterError)\n    templater_error = num_templater_errors != 0\n',
+        "QUIET", None, 'R22a: count held in a local, types positional, `> 0` as `!= 0`',
+    ),
+    Variant(
+        'quiet-handle-unparsable-tuple-whole', CLI,
+        '    total_errors, num_filtered_errors = linting_result.count_tmp_prs_errors()\n',
+        '    tmp_prs_counts = linting_result.count_tmp_prs_errors()\n    total_errors = tmp_prs_counts[0]\n    num_filtered_errors = tmp_prs_counts[1]\n',
+        "QUIET", None, 'R22a: count tuple kept whole, components read by index',
+    ),
+    Variant(
+        'quiet-paths-fix-exit-code-if', CLI,
+        '            OutputKind.DIAGNOSTIC,\n        )\n        exit_code = max(exit_code, EXIT_FAIL)\n',
+        '            OutputKind.DIAGNOSTIC,\n        )\n        if exit_code < EXIT_FAIL:\n            exit_code = EXIT_FAIL\n',
+        "QUIET", None, 'R22a: max(exit_code, EXIT_FAIL) spelled as a comparison + assignment',
+    ),
+    Variant(
+        'quiet-paths-fix-unfixable-list-then-sum', CLI,
+        '    num_unfixable = sum(p.num_unfixable_lint_errors for p in result.paths)\n    if num_unfixable > 0:\n',
+        '    unfixable_per_dir = [d.num_unfixable_lint_errors for d in result.paths]\n    num_unfixable = sum(unfixable_per_dir)\n    if num_unfixable:\n',
+        "QUIET", None, 'R22a: per-dir counters collected in a list, then summed; truthiness test',
+    ),
+    Variant(
+        'quiet-lint-nofail-early-exit', CLI,
+        '    if not nofail:\n        if not non_human_output:\n            formatter.completion_message()\n        exit_code = result.stats(EXIT_FAIL, EXIT_SUCCESS)["exit code"]\n        assert isinstance(exit_code, int), "result.stats error code must be integer."\n        # If large_file_skip_fail is set and files were skipped, fail.\n        if result.files_skipped and config.get("large_file_skip_fail"):\n            exit_code = max(exit_code, EXIT_FAIL)\n        sys.exit(exit_code)\n    else:\n        sys.exit(EXIT_SUCCESS)\n',
+        '    if nofail:\n        sys.exit(EXIT_SUCCESS)\n    if not non_human_output:\n        formatter.completion_message()\n    exit_code = result.stats(EXIT_FAIL, EXIT_SUCCESS)["exit code"]\n    assert isinstance(exit_code, int), "result.stats error code must be integer."\n    # If large_file_skip_fail is set and files were skipped, fail.\n    if result.files_skipped and config.get("large_file_skip_fail"):\n        exit_code = max(exit_code, EXIT_FAIL)\n    sys.exit(exit_code)\n',
+        "QUIET", None, 'R22e: `if nofail: sys.exit(EXIT_SUCCESS)` first, rest dedented',
+    ),
+    Variant(
+        'quiet-lint-nofail-no-else', CLI,
+        '        sys.exit(exit_code)\n    else:\n        sys.exit(EXIT_SUCCESS)\n',
+        '        sys.exit(exit_code)\n    sys.exit(EXIT_SUCCESS)\n',
+        "QUIET", None, 'R22e: success exit after an if-body that ends in sys.exit (no else)',
+    ),
+    Variant(
+        'quiet-lint-nofail-flag-local', CLI,
+        '    if not nofail:\n        if not non_human_output:\n            formatter.completion_message()\n',
+        '    exit_matters = not nofail\n    if exit_matters:\n        if not non_human_output:\n            formatter.completion_message()\n',
+        "QUIET", None, 'R22e: `not nofail` hoisted into a boolean local',
+    ),
+    Variant(
+        'quiet-handler-early-return', CLI,
+        '        if exc_type is SQLFluffUserError:\n            click.echo(\n                "\\nUser Error: "\n                + self.formatter.colorize(\n                    str(exc_val),\n                    Color.red,\n                ),\n                err=True,\n            )\n            sys.exit(EXIT_ERROR)\n',
+        '        if exc_type is not SQLFluffUserError:\n            return\n        click.echo(\n            "\\nUser Error: "\n            + self.formatter.colorize(\n                str(exc_val),\n                Color.red,\n            ),\n            err=True,\n        )\n        sys.exit(EXIT_ERROR)\n',
+        "QUIET", None, 'R22e: handler test inverted into an early return',
+    ),
+    Variant(
+        'quiet-paths-fix-handler-local', CLI,
+        '    with PathAndUserErrorHandler(formatter):\n        result: LintingResult = linter.lint_paths(',
+        '    error_handler = PathAndUserErrorHandler(formatter)\n    with error_handler:\n        result: LintingResult = linter.lint_paths(',
+        "QUIET", None, 'R22e: the handler object held in a local before `with`',
+    ),
+    Variant(
+        'quiet-exit-constants-annotated', CLI_INIT,
+        'EXIT_SUCCESS = 0\nEXIT_FAIL = 1\nEXIT_ERROR = 2\n',
+        'EXIT_SUCCESS: int = 0\nEXIT_FAIL: int = 1\nEXIT_ERROR: int = 2\n',
+        "QUIET", None, 'R22e: exit constants with type annotations',
+    ),
+    Variant(
+        'quiet-stats-failed-flag-hoisted', LRES,
+        '        all_stats["exit code"] = fail_code if counts["violations"] > 0 else success_code\n        all_stats["status"] = "FAIL" if counts["violations"] > 0 else "PASS"\n',
+        '        has_violations = counts["violations"] > 0\n        all_stats["exit code"] = fail_code if has_violations else success_code\n        all_stats["status"] = "FAIL" if has_violations else "PASS"\n',
+        "QUIET", None, 'R22d: `violations > 0` hoisted into a boolean local shared by two entries',
+    ),
+    Variant(
+        'quiet-stats-exit-code-if-else', LRES,
+        '        all_stats["exit code"] = fail_code if counts["violations"] > 0 else success_code\n        all_stats["status"] = "FAIL" if counts["violations"] > 0 else "PASS"\n',
+        '        if counts["violations"] > 0:\n            all_stats["exit code"] = fail_code\n            all_stats["status"] = "FAIL"\n        else:\n            all_stats["exit code"] = success_code\n            all_stats["status"] = "PASS"\n',
+        "QUIET", None, 'R22d: conditional expression spelled as an if/else statement',
+    ),
+    Variant(
+        'quiet-stats-exit-code-default-then-override', LRES,
+        '        all_stats["exit code"] = fail_code if counts["violations"] > 0 else success_code\n',
+        '        all_stats["exit code"] = success_code\n        if counts["violations"]:\n            all_stats["exit code"] = fail_code\n',
+        "QUIET", None, 'R22d: default success_code, overridden when the statistic is truthy',
+    ),
+    Variant(
+        'quiet-stats-exit-code-truthiness-inverted', LRES,
+        '        all_stats["exit code"] = fail_code if counts["violations"] > 0 else success_code\n',
+        '        all_stats["exit code"] = success_code if counts["violations"] == 0 else fail_code\n',
+        "QUIET", None, 'R22d: `success if v == 0 else fail`',
+    ),
+    Variant(
+        'quiet-stats-dir-stats-local', LRES,
+        '        for path in self.paths:\n            counts = sum_dicts(path.stats(), counts)\n',
+        '        linted_dirs = self.paths\n        for linted_dir in linted_dirs:\n            dir_stats = linted_dir.stats()\n            counts = sum_dicts(dir_stats, counts)\n',
+        "QUIET", None, 'R22d: self.paths and the per-dir stats dict held in locals, loop variable renamed',
+    ),
+    Variant(
+        'quiet-dir-stats-dict-call', LDIR,
+        '        return {\n            "files": self._num_files,\n            "clean": self._num_clean,\n            "unclean": self._num_unclean,\n            "violations": self._num_violations,\n        }\n',
+        '        return dict(\n            files=self._num_files,\n            clean=self._num_clean,\n            unclean=self._num_unclean,\n            violations=self._num_violations,\n        )\n',
+        "QUIET", None, 'R22d: dict display spelled as dict(...)',
+    ),
+    Variant(
+        'quiet-dir-stats-counter-local', LDIR,
+        '        return {\n            "files": self._num_files,\n            "clean": self._num_clean,\n            "unclean": self._num_unclean,\n            "violations": self._num_violations,\n        }\n',
+        '        num_violations = self._num_violations\n        dir_stats = {\n            "files": self._num_files,\n            "clean": self._num_clean,\n            "unclean": self._num_unclean,\n            "violations": num_violations,\n        }\n        return dir_stats\n',
+        "QUIET", None, 'R22d: counter read into a local, dict held in a local before the return',
+    ),
+    Variant(
+        'quiet-dir-add-violations-count-local', LDIR,
+        '        self._num_violations += file.num_violations()\n',
+        '        file_violations = file.num_violations()\n        self._num_violations += file_violations\n',
+        "QUIET", None, 'R22b: filtered count held in a local before the counter is advanced',
+    ),
+    Variant(
+        'quiet-discard-warning-flag-local', LDIR,
+        '                            if not v_dict.get("warning"):\n                                self.num_unfixable_lint_errors += 1\n',
+        '                            downgraded = v_dict.get("warning")\n                            if not downgraded:\n                                self.num_unfixable_lint_errors += 1\n',
+        "QUIET", None, "R22b: the record's warning status read into a local before the guard",
+    ),
+    Variant(
+        'quiet-discard-early-continue', LDIR,
+        '                        if v_dict.get("fixes", []):\n                            # We\'re changing a violating with fixes, to one without,\n                            # so we need to increment the cache value.\n                            # NOTE: Warnings are never counted as unfixable errors.\n                            if not v_dict.get("warning"):\n                                self.num_unfixable_lint_errors += 1\n                            v_dict["fixes"] = []\n',
+        '                        if not v_dict.get("fixes", []):\n                            continue\n                        # We\'re changing a violating with fixes, to one without,\n                        # so we need to increment the cache value.\n                        # NOTE: Warnings are never counted as unfixable errors.\n                        if v_dict.get("warning"):\n                            pass\n                        else:\n                            self.num_unfixable_lint_errors += 1\n                        v_dict["fixes"] = []\n',
+        "QUIET", None, 'R22b: nested ifs as early continue; warning guard as if/pass/else',
+    ),
+    Variant(
+        'quiet-flagging-config-hoisted-renamed', "src/sqlfluff/core/linter/linter.py",
+        '        for violation in violations:\n            violation.ignore_if_in(parsed.config.get("ignore"))\n            violation.warning_if_in(parsed.config.get("warnings"))\n',
+        '        ignored_codes = parsed.config.get("ignore")\n        warning_codes = parsed.config.get("warnings")\n        for err in violations:\n            err.ignore_if_in(ignored_codes)\n            err.warning_if_in(warning_codes)\n',
+        "QUIET", None, 'R22f: config reads hoisted out of the flagging loop, loop variable renamed',
+    ),
+    Variant(
+        'quiet-flagging-two-loops', "src/sqlfluff/core/linter/linter.py",
+        '        for violation in violations:\n            violation.ignore_if_in(parsed.config.get("ignore"))\n            violation.warning_if_in(parsed.config.get("warnings"))\n',
+        '        for violation in violations:\n            violation.ignore_if_in(parsed.config.get("ignore"))\n        for violation in violations:\n            violation.warning_if_in(parsed.config.get("warnings"))\n',
+        "QUIET", None, 'R22f: one loop per flagging method',
+    ),
+    Variant(
+        'quiet-lintedfile-deduped-local-keyword', "src/sqlfluff/core/linter/linter.py",
+        '        linted_file = LintedFile(\n            parsed.fname,\n            # Deduplicate violations\n            LintedFile.deduplicate_in_source_space(violations),\n',
+        '        # Deduplicate violations\n        unique_violations = LintedFile.deduplicate_in_source_space(violations)\n        linted_file = LintedFile(\n            parsed.fname,\n            unique_violations,\n',
+        "QUIET", None, 'R22f: de-duplicated list held in a local',
+    ),
+    Variant(
+        'quiet-violations-alias-before-construct', "src/sqlfluff/core/linter/linter.py",
+        '        linted_file = LintedFile(\n            parsed.fname,\n            # Deduplicate violations\n            LintedFile.deduplicate_in_source_space(violations),\n',
+        '        all_violations = violations\n        linted_file = LintedFile(\n            parsed.fname,\n            # Deduplicate violations\n            LintedFile.deduplicate_in_source_space(all_violations),\n',
+        "QUIET", None, 'R22f: the list handed on under a second name',
+    ),
+    Variant(
+        'quiet-stats-loop-over-comprehension', LRES,
+        '        for path in self.paths:\n            counts = sum_dicts(path.stats(), counts)\n',
+        '        for dir_stats in [path.stats() for path in self.paths]:\n            counts = sum_dicts(dir_stats, counts)\n',
+        "QUIET", None, 'R22d: loop over a comprehension of the per-dir stats dicts',
+    ),
+    Variant(
+        'quiet-stdin-fix-failed-flag', CLI,
+        '    sys.exit(EXIT_FAIL if templater_error or unfixable_error else exit_code)\n',
+        '    failed = templater_error or unfixable_error\n    if failed:\n        exit_code = EXIT_FAIL\n    sys.exit(exit_code)\n',
+        "QUIET", None, 'R22a: exit decision through a flag local and an assignment',
+    ),
+    Variant(
+        'quiet-lint-handler-as-name', CLI,
+        "    with PathAndUserErrorHandler(formatter):\n        # add stdin if specified via lone '-'\n",
+        "    with PathAndUserErrorHandler(formatter) as _handler:\n        # add stdin if specified via lone '-'\n",
+        "QUIET", None, 'R22e: handler bound with `as`',
+    ),
+    Variant(
+        'quiet-dir-add-unfixable-positional-local', LDIR,
+        '        self.num_unfixable_lint_errors += file.num_violations(\n            types=SQLLintError,\n            fixable=False,\n        )\n',
+        '        unfixable = file.num_violations(SQLLintError, fixable=False)\n        self.num_unfixable_lint_errors += unfixable\n',
+        "QUIET", None, 'R22b: types positional, count held in a local',
+    ),
+    Variant(
+        'quiet-lint-exit-code-clamp-if', CLI,
+        '        if result.files_skipped and config.get("large_file_skip_fail"):\n            exit_code = max(exit_code, EXIT_FAIL)\n        sys.exit(exit_code)\n',
+        '        if result.files_skipped:\n            if config.get("large_file_skip_fail"):\n                exit_code = max(exit_code, EXIT_FAIL)\n        sys.exit(exit_code)\n',
+        "QUIET", None, 'R22a: conjunction spelled as nested ifs',
+    ),
+    # breaking edits: must be reported
+    Variant("stats-loop-over-filtered-comprehension", LRES,
+            "        for path in self.paths:\n            counts = sum_dicts(path.stats(), counts)\n",
+            "        for dir_stats in [path.stats() for path in self.paths if path.files]:\n            counts = sum_dicts(dir_stats, counts)\n",
+            "R22d", "stats", "dirs whose files were not retained drop out of the sum"),
+    Variant("stats-exit-code-overridden-unconditionally", LRES,
+            'all_stats["exit code"] = fail_code if counts["violations"] > 0 else success_code\n',
+            'all_stats["exit code"] = fail_code if counts["violations"] > 0 else success_code\n        all_stats["exit code"] = success_code\n', "R22d", "stats",
+            "a later unconditional store makes success_code the final value whatever the statistic"),
+    Variant("stats-exit-code-override-on-unclean", LRES,
+            'all_stats["exit code"] = fail_code if counts["violations"] > 0 else success_code\n',
+            'all_stats["exit code"] = success_code\n        if counts["unclean"]:\n            all_stats["exit code"] = fail_code\n', "R22d", "stats",
+            "default-then-override on the wrong statistic"),
+    Variant("stats-exit-code-test-always-true", LRES,
+            'all_stats["exit code"] = fail_code if counts["violations"] > 0 else success_code',
+            'all_stats["exit code"] = fail_code if counts["violations"] >= 0 else success_code', "R22d", "stats"),
+    Variant("stats-exit-code-only-with-files", LRES,
+            '        all_stats["exit code"] = fail_code if counts["violations"] > 0 else success_code\n',
+            '        if counts["files"] > 1:\n            all_stats["exit code"] = fail_code if counts["violations"] > 0 else success_code\n', "R22d", "stats"),
+    Variant("handler-exits-error-for-other-exceptions", CLI,
+            "        if exc_type is SQLFluffUserError:\n            click.echo(\n                \"\\nUser Error: \"",
+            "        if exc_type is not SQLFluffUserError:\n            click.echo(\n                \"\\nUser Error: \"", "R22e", "__exit__",
+            "test inverted without inverting the branches"),
+    Variant("lint-success-exit-not-only-nofail", CLI,
+            "    if not nofail:\n        if not non_human_output:\n            formatter.completion_message()\n",
+            "    if not nofail and not bench:\n        if not non_human_output:\n            formatter.completion_message()\n", "R22e", "lint",
+            "--bench alone reaches the unconditional success exit"),
+    Variant("paths-fix-handler-local-not-a-handler", CLI,
+            "    with PathAndUserErrorHandler(formatter):\n        result: LintingResult = linter.lint_paths(",
+            "    error_handler = open(os.devnull)\n    with error_handler:\n        result: LintingResult = linter.lint_paths(", "R22e", "_paths_fix"),
+    Variant("discard-counts-only-warnings-through-local", LDIR,
+            '                            if not v_dict.get("warning"):\n                                self.num_unfixable_lint_errors += 1\n',
+            '                            downgraded = v_dict.get("warning")\n                            if downgraded:\n                                self.num_unfixable_lint_errors += 1\n', "R22b", None,
+            "guard through a local with the polarity lost"),
+    Variant("flagging-two-loops-list-extended-between", "src/sqlfluff/core/linter/linter.py",
+            "        for violation in violations:\n            violation.ignore_if_in(parsed.config.get(\"ignore\"))\n            violation.warning_if_in(parsed.config.get(\"warnings\"))\n",
+            "        for violation in violations:\n            violation.warning_if_in(parsed.config.get(\"warnings\"))\n        violations += list(parsed.templating_violations)[:0]\n        for violation in violations:\n            violation.ignore_if_in(parsed.config.get(\"ignore\"))\n",
+            "R22f", "lint_parsed", "split loops with an extension between them: the warnings loop does not see the whole list"),
     Variant("violations-extended-after-flagging", "src/sqlfluff/core/linter/linter.py",
             "        # We process the ignore config here if appropriate\n        for violation in violations:\n            violation.ignore_if_in(parsed.config.get(\"ignore\"))\n            violation.warning_if_in(parsed.config.get(\"warnings\"))\n",
             "        # We process the ignore config here if appropriate\n        for violation in violations:\n            violation.ignore_if_in(parsed.config.get(\"ignore\"))\n            violation.warning_if_in(parsed.config.get(\"warnings\"))\n        violations += list(parsed.templating_violations)[:0]\n",
